@@ -1,14 +1,17 @@
 #!/bin/sh
-# usage: tools/try_seed.sh <patch.diff> <PROP> [PROP...]
+# usage: tools/try_seed.sh <patch.diff> [--tier T] <PROP> [PROP...]
 # Applies a seeded change to a scratch copy of /repo's working tree and runs the given checks on it.
 P=$1; shift
+TIER=quick
+if [ "$1" = "--tier" ]; then TIER=$2; shift; shift; fi
 D=$(mktemp -d /tmp/seedtest.XXXXXX)
 rsync -a --exclude .git --exclude '*.o' --exclude 'build/*.a' /repo/ "$D"/
 if ! (cd "$D" && patch -p1 --no-backup-if-mismatch < "$P" > "$D/.patch.log" 2>&1); then
   echo "PATCH FAILED"; cat "$D/.patch.log"; rm -rf "$D"; exit 3
 fi
 for prop in "$@"; do
-  echo "=== $prop on seeded tree"
-  (cd /verif && NAKEN_REPO="$D" timeout 1200 ./check "$prop" --tier quick 2>&1 | grep "^VIOLATION\|^\[$prop\]\|INFRA\|KNOWN" | cut -c1-220 | head -8)
+  echo "=== $prop ($TIER) on seeded tree"
+  (cd /verif && NAKEN_REPO="$D" timeout 3000 ./check "$prop" --tier $TIER > /tmp/try_seed.$prop.log 2>&1)
+  grep -v "^KNOWN-FINDING" /tmp/try_seed.$prop.log | grep "^VIOLATION\|^\[$prop\]\|INFRA" | cut -c1-200 | head -5
 done
 rm -rf "$D"
